@@ -1,5 +1,6 @@
 import OdakProofs.Lemmas.Kernels
 import OdakProofs.Lemmas.PropagateLemmas
+import OdakProofs.Lemmas.NumpyPipelines
 
 /-! # C03 – propagation is linear and shift-equivariant (superposition principle) -/
 namespace Odak
@@ -48,5 +49,34 @@ theorem C03_shift_equivariant {n m : Nat} (s t : Nat) (u H A : CGrid ℝ n m) :
     custom (CGrid.roll s t u) H A = CGrid.roll s t (custom u H A) ∧
     customNoAp (CGrid.roll s t u) H = CGrid.roll s t (customNoAp u H) :=
   ⟨custom_roll s t u H A, customNoAp_roll s t u H⟩
+
+/-- the three pipelines that do NOT funnel through `custom` (NumPy `transfer_function_fresnel`,
+    NumPy `impulse_response_fresnel`, torch `fraunhofer`) are linear in the field as well, for all
+    complex scalars, with no hypothesis on `dx`, `λ`, `k`, `z` or the grid size (over ℝ the real
+    scalings `· c` and `/ c` are linear also when `c = 0`); the zero field maps to the zero field -/
+theorem C03_np_pipelines_linear {n m : Nat} (u v : CGrid ℝ n m) (a b : Cx ℝ) (dx lam k z : ℝ) :
+    (npTF (CGrid.add (CGrid.smul a u) (CGrid.smul b v)) dx lam k z
+      = CGrid.add (CGrid.smul a (npTF u dx lam k z)) (CGrid.smul b (npTF v dx lam k z))) ∧
+    (npIR (CGrid.add (CGrid.smul a u) (CGrid.smul b v)) dx lam k z
+      = CGrid.add (CGrid.smul a (npIR u dx lam k z)) (CGrid.smul b (npIR v dx lam k z))) ∧
+    (torchFraunhofer (CGrid.add (CGrid.smul a u) (CGrid.smul b v)) dx lam k z
+      = CGrid.add (CGrid.smul a (torchFraunhofer u dx lam k z)) (CGrid.smul b (torchFraunhofer v dx lam k z))) ∧
+    npTF (CGrid.zero : CGrid ℝ n m) dx lam k z = CGrid.zero ∧
+    npIR (CGrid.zero : CGrid ℝ n m) dx lam k z = CGrid.zero ∧
+    torchFraunhofer (CGrid.zero : CGrid ℝ n m) dx lam k z = CGrid.zero :=
+  ⟨npTF_linear u v a b dx lam k z, npIR_linear u v a b dx lam k z, torchFraunhofer_linear u v a b dx lam k z,
+   npTF_zero_field dx lam k z, npIR_zero_field dx lam k z, torchFraunhofer_zero_field dx lam k z⟩
+
+/-- NumPy `transfer_function_fresnel`: circularly translating the input by whole pixels `(s, t)`
+    translates the output by the same pixels (`fftshift`/`ifftshift` are rolls and commute with
+    rolls; DFT shift theorem) – no hypotheses -/
+theorem C03_np_tf_shift_equivariant {n m : Nat} (s t : Nat) (u : CGrid ℝ n m) (dx lam k z : ℝ) :
+    npTF (CGrid.roll s t u) dx lam k z = CGrid.roll s t (npTF u dx lam k z) :=
+  npTF_roll s t u dx lam k z
+
+/-- the same for NumPy `impulse_response_fresnel` (a circular convolution as coded) -/
+theorem C03_np_ir_shift_equivariant {n m : Nat} (s t : Nat) (u : CGrid ℝ n m) (dx lam k z : ℝ) :
+    npIR (CGrid.roll s t u) dx lam k z = CGrid.roll s t (npIR u dx lam k z) :=
+  npIR_roll s t u dx lam k z
 
 end Odak
